@@ -1,5 +1,6 @@
 import CifModel.Lemmas.StoreIterOk
 import CifModel.Lemmas.StoreRefineS
+import CifModel.Spec.StoreSpec
 /-
   Lemmas/StoreIterAbs — what cif_pktitr_next_packet delivers, stated on the STORE, not through the model's own packet builder: for
   an iterator tied to its store (`IterOk`) the packet holds, for every item of the loop in the loop's order, exactly the value stored
@@ -275,12 +276,6 @@ theorem map_set_of_agree {β} (f f' : Nat → β) : ∀ (L : List Nat), L.Pairwi
       exact map_set_of_agree f f' xs hp.2 m k h (fun q hq hne => hag q (List.mem_cons_of_mem _ hq) hne)
 
 -- ---- where a tied iterator stands in its loop -------------------------------------------------------------------------------------------
-
-/-- row `r` of the loop is still to be delivered -/
-def Iter.pend (it : Iter) (r : Nat) : Bool := it.rows.any (fun x => x.rowNum == r)
-
-/-- the number of packets of the loop (as it is now) that the iterator has passed -/
-def Iter.doneIn (it : Iter) (d : Db) : Nat := ((d.loopRows it.cid it.loopNum).filter (fun q => !it.pend q)).length
 
 /-- with rows pending, the passed rows are those below the first pending row -/
 theorem doneIn_pending (it : Iter) (d : Db) (h : IterOk it d) (r : ValueRow) (rest : List ValueRow) (hrows : it.rows = r :: rest) :
